@@ -142,10 +142,10 @@ u32 isalnum(u32 c) { return (c >= '0' && c <= '9') || (c >= 'a' && c <= 'z') || 
 u32 isdigit(u32 c) { return (c >= '0' && c <= '9'); }
 #endif
 /* diagnostics printed to std::cerr/std::cout (e.g. by ABG_ASSERT_NOT_REACHED): formatting is not the subject */
-#if defined(DECL__ZNSolsEi) && defined(HAVE_class_std__basic_ostream)
+#if defined(DECL__ZNSolsEi) && defined(HAVE_class_std__basic_ostream) && !defined(VERIF_OSTREAM_MODEL)
 struct class_std__basic_ostream *_ZNSolsEi(void *os, u32 v) { return (struct class_std__basic_ostream *)os; }
 #endif
-#if defined(DECL__ZStlsISt11char_traitsIcEERSt13basic_ostreamIcT_ES5_PKc) && defined(HAVE_class_std__basic_ostream)
+#if defined(DECL__ZStlsISt11char_traitsIcEERSt13basic_ostreamIcT_ES5_PKc) && defined(HAVE_class_std__basic_ostream) && !defined(VERIF_OSTREAM_MODEL)
 struct class_std__basic_ostream *_ZStlsISt11char_traitsIcEERSt13basic_ostreamIcT_ES5_PKc(void *os, u8 *s) { return (struct class_std__basic_ostream *)os; }
 #endif
 #if defined(VERIF_NATIVE) && defined(HAVE_class_std__basic_ostream)
@@ -155,5 +155,17 @@ struct class_std__basic_ostream _ZSt4cerr;
 #endif
 #ifdef DECLG__ZSt4cout
 struct class_std__basic_ostream _ZSt4cout;
+#endif
+#endif
+/* RTTI vtables of libstdc++ referenced by type_info objects: only their addresses are used */
+#if !defined(VERIF_NATIVE_REAL)
+#ifdef DECLG__ZTVN10__cxxabiv117__class_type_infoE
+u8 *_ZTVN10__cxxabiv117__class_type_infoE;
+#endif
+#ifdef DECLG__ZTVN10__cxxabiv120__si_class_type_infoE
+u8 *_ZTVN10__cxxabiv120__si_class_type_infoE;
+#endif
+#ifdef DECLG__ZTVN10__cxxabiv121__vmi_class_type_infoE
+u8 *_ZTVN10__cxxabiv121__vmi_class_type_infoE;
 #endif
 #endif
